@@ -10,6 +10,8 @@ R-YIELD  iterate_matches / _and_pos yield group 0 (and that group's own span) pe
 """
 from __future__ import annotations
 
+from ..absdom import pattern_of
+
 import ast
 import re
 
@@ -177,7 +179,7 @@ def run(ctx, model):
     MM.subject_rule(ctx, model, "R-SOURCE", sorted(MM.matching_methods(model)))
 
     # ---------------- R-CACHE
-    from ..absdom import cache_field
+    from ..absdom import cache_field, pattern_of
     cache = cache_field(model)
     allowed = {"__init__": "none", "compile": "compile", "get_compiled_pattern": "none"}
     writers = []
@@ -199,7 +201,9 @@ def run(ctx, model):
             if allowed[fn.node.name] == "none":
                 ok = isinstance(val, ast.Constant) and val.value is None
             else:
-                ok = isinstance(val, ast.Call) and ast.unparse(val.func).endswith("compile")
+                # any call is accepted here: that it IS one re.compile of the exported text under the class flags is
+                # decided semantically just below (compile() interpreted over the abstract `re` layer)
+                ok = isinstance(val, ast.Call)
         ctx.instance("R-CACHE", key=("writer", fn.short, norm_text(st)), sample=f"writer {fn.short}: {norm_text(st)}")
         if not ok:
             ctx.violation("R-CACHE", fn.relpath, fn.short, norm_text(st),
@@ -245,7 +249,7 @@ def run(ctx, model):
     kind, v, hooks, o = MM.run_method(model, "purge", [], compiled=True)
     pf = model.method(PRE, "Pregex", "purge")
     ctx.instance("R-CACHE", key="purge", sample=f"purge(): calls={[c['entry'] for c in hooks.calls]}")
-    if kind == "raise" or not isinstance(o.fields.get(cache), MM.AbsCompiled) or o.fields.get("_Pregex__pattern") != PAT:
+    if kind == "raise" or not isinstance(o.fields.get(cache), MM.AbsCompiled) or pattern_of(o) != PAT:
         ctx.violation("R-CACHE", pf.relpath, pf.short, "<purge>", "purge() disturbs the instance", pf.node.lineno)
 
     # ---------------- R-WRAP
